@@ -667,7 +667,8 @@ pub fn crashes(rng: &mut Rng, thorough: bool) -> ImgScenario {
 
 pub fn generate(prop: &str, rng: &mut Rng, thorough: bool) -> ImgScenario {
     match prop {
-        "C19" => match rng.below(10) {
+        "C19" => match rng.below(12) {
+            10..=11 => crashes(rng, thorough),
             0..=4 => cycles(rng, thorough),
             5..=6 => tiny_ht(rng, thorough),
             7 => plain(scen::c01(rng, thorough)),
